@@ -1088,6 +1088,9 @@ class LongItmdVariants(dict):
             is_new_remainder = False
             # possibly we got another -1 from matching the remainder
             prefactor *= factor
+            # the factor the term would need to factor the variant with a
+            # prefactor of 1 changes accordingly
+            unit_factorization_pref *= factor
 
             # next, we can separate them according to the itmd_positions
             # so we can later build intermediate variants more efficient
